@@ -16,7 +16,7 @@ CLAIMED = {
          "symbolic execution of go/ssa + SMT; havocked (arbitrary) lexer pre-state, regex cascade encoded as NFA terms over symbolic runes", "DESIGN.md §6 C13"),
  "C02": ("Differential symbolic execution: programs from a bounded grammar (expressions of depth<=1 quick / <=2 thorough; every form with a nested expression in every operand position; 8 loop shapes with plain/labelled break/continue and symbolic bounds; 10 call shapes incl. variadic, recursion, apply, map, closures) run through the real Generator+VM and through a reference evaluator in the harness; value, error-ness and the trace of a host function registered through AddFunction are compared, operands symbolic so every control path of each shape is covered.",
          "symbolic execution of go/ssa + SMT; differential against a reference evaluator, shapes case-split, operands and control paths solver-decided", "DESIGN.md §6 C02"),
- "C04": ("The C02 program shapes evaluated form by form: after every successful evaluation the depths of the four VM stacks are asserted at rest on every control path (symbolic operands), evaluating \"\" afterwards returns nil, and one-at-a-time vs (begin ...) evaluation agree.",
+ "C04": ("The C02 program shapes evaluated form by form: after every successful evaluation the depths of the four VM stacks are asserted at rest on every control path (symbolic operands), evaluating \"\" afterwards returns nil, and one-at-a-time vs (begin ...) evaluation agree. The same for 47 programs of the full surface language in the standard setup (struct, var, func, method, interface, package, macros, multiple assignment, range, infix blocks with if/else and go-style for, eval-style builtins) with symbolic operands and loop bounds, form by form and repeated three times in one long-lived interpreter (idle growth).",
          "symbolic execution of go/ssa + SMT; stack-depth assertions on every solver-feasible control path", "DESIGN.md §6 C04"),
  "C05": ("Failure injection with solver-chosen failure points: the k-th call of a host function fails (error return or Go panic) iff a symbolic Bool says so, for every k, in the C02 expression/loop/call shapes; a malformed special form at 16 evaluated positions. Asserted: the failure is reported, the four stacks are at rest, definitions completed before the failure are intact and nothing else leaked, follow-up evaluations work.",
          "symbolic execution of go/ssa + SMT; symbolic failure plan (fail_k Bool per host call)", "DESIGN.md §6 C05"),
@@ -40,7 +40,7 @@ CLAIMED = {
          "symbolic-execution engine, bounded case split over field x kind x route; symbolic payloads", "DESIGN.md §6 C17"),
  "C18": ("Packages nested to depth 2 built by the real package form with a member whose first rune is *symbolic* (below U+0250 quick / U+3000 thorough), member kinds value/function/hash/nested package, get and set routes through the real path walker: lower-case first rune (unicode.IsLower, interpreted) => denied and unchanged, upper-case => granted, nested packages traversable; plus 18 script-level programs (aliases, set, functions defined inside, package->package->hash paths).",
          "symbolic execution of go/ssa + SMT; symbolic first rune of member names through the real walkers and unicode tables", "DESIGN.md §6 C18"),
- "C20": ("Nondeterministic map-order mode of the engine: every range over a Go map of <=3 entries visits a case-split permutation. Symbol numbering by NewZlispWithFuncs, the decode leg of JSON/msgpack (makeSortedSlicesFromMap/decodeGoToSexpHelper) and evaluation/printing of small hashes and scopes are run in insertion order and in every other order and must print the same. Natively the replay repeats the scenario 200 times (the runtime randomises the order).",
+ "C20": ("Nondeterministic map-order mode of the engine: every range over a Go map of <=3 entries visits a case-split permutation, larger maps are walked forwards and backwards. Symbol numbering by NewZlispWithFuncs and by the standard setup of a sandbox (observed through symbol comparison over 32 names), the same program in three successive fresh interpreters of one process (16 programs: value and error text), the decode leg of JSON/msgpack (makeSortedSlicesFromMap/decodeGoToSexpHelper) and evaluation/printing of small hashes and scopes are run in insertion order and in every other order and must print the same. Natively the replay repeats the scenario 200 times (the runtime randomises the order).",
          "symbolic-execution engine with map iteration order as a case-split nondeterministic choice", "DESIGN.md §6 C20"),
 }
 NA = {
